@@ -278,8 +278,16 @@ class Tr:
         raise Unsupported("call " + ast.unparse(f))
 
     # ---------------- statements ---------------------------------------------
+    @property
+    def mut(self):
+        return bool(self.cfg.get("mutator"))
+
+    def wb(self, binds, term):
+        return wrap_binds(binds, term, "doS" if self.mut else "do")
+
     def block(self, stmts, ret):
-        """translate a statement list into a term of type res T; `ret` = term returned at fall-through"""
+        """translate a statement list into a term of type res T (or mres for mutators);
+        `ret` = term returned at fall-through"""
         if not stmts:
             return ret
         s, rest = stmts[0], stmts[1:]
@@ -289,28 +297,28 @@ class Tr:
             if s.value is None or (isinstance(s.value, ast.Constant) and s.value.value is None):
                 return self.cfg.get("return_none", "Ok None")
             b, t = self.expr(s.value)
-            return wrap_binds(b, self.cfg.get("return_wrap", "Ok {0}").format(t))
+            return self.wb(b, self.cfg.get("return_wrap", "Ok {0}").format(t))
         if isinstance(s, ast.Raise):
-            return "Err " + self.exc_name(s.exc)
+            return ("MErr self " if self.mut else "Err ") + self.exc_name(s.exc)
         if isinstance(s, ast.If):
             b, t = self.expr(s.test)
             if t == "(pipeline self)":
                 t = "(truthy_list (pipeline self))"
             thn = self.block(s.body + ([] if ends(s.body) else rest), ret)
             els = self.block(s.orelse + ([] if (s.orelse and ends(s.orelse)) else rest), ret)
-            return wrap_binds(b, f"(if {t} then {thn} else {els})")
+            return self.wb(b, f"(if {t} then {thn} else {els})")
         if isinstance(s, ast.Assign) and len(s.targets) == 1:
             tgt = s.targets[0]
             if isinstance(tgt, ast.Name):
                 b, t = self.assign_rhs(tgt.id, s.value)
-                return wrap_binds(b, f"let {v(tgt.id)} := {t} in {self.block(rest, ret)}")
+                return self.wb(b, f"let {v(tgt.id)} := {t} in {self.block(rest, ret)}")
             if isinstance(tgt, ast.Tuple) and all(isinstance(x, ast.Name) for x in tgt.elts):
                 b, t = self.expr(s.value)
                 pat = ", ".join(v(x.id) for x in tgt.elts)
-                return wrap_binds(b, f"let '({pat}) := {t} in {self.block(rest, ret)}")
+                return self.wb(b, f"let '({pat}) := {t} in {self.block(rest, ret)}")
             if isinstance(tgt, ast.Attribute) and ast.unparse(tgt) == "self._pipeline":
                 b, t = self.expr(s.value)
-                return wrap_binds(b, f"let self := set_pipeline self {t} in {self.block(rest, ret)}")
+                return self.wb(b, f"let self := set_pipeline self {t} in {self.block(rest, ret)}")
             if (isinstance(tgt, ast.Attribute) and tgt.attr == "transform" and isinstance(tgt.value, ast.Subscript)
                     and ast.unparse(tgt.value.value) == "self._pipeline"):
                 bi, i = self.expr(tgt.value.slice)
@@ -318,13 +326,13 @@ class Tr:
                 b = bi + bv
                 st = self.atom(b, f"py_getitem (pipeline self) {i}", "st")
                 pl = self.atom(b, f"py_setitem (pipeline self) {i} (set_step_transform {st} {val})", "pl")
-                return wrap_binds(b, f"let self := set_pipeline self {pl} in {self.block(rest, ret)}")
+                return self.wb(b, f"let self := set_pipeline self {pl} in {self.block(rest, ret)}")
         if isinstance(s, ast.Expr) and isinstance(s.value, ast.Call):
             c = s.value
             if ast.unparse(c.func).endswith(".__setattr__") and "super(" in ast.unparse(c.func):
                 b1, a1 = self.expr(c.args[0])
                 b2, a2 = self.expr(c.args[1])
-                return wrap_binds(b1 + b2, f"let self := setattr self {a1} {a2} in {self.block(rest, ret)}")
+                return self.wb(b1 + b2, f"let self := setattr self {a1} {a2} in {self.block(rest, ret)}")
         if isinstance(s, ast.Try) and not s.finalbody and not s.orelse and len(s.handlers) == 1:
             return self.try_stmt(s, rest, ret)
         raise Unsupported(f"statement {type(s).__name__} at line {s.lineno}: {ast.unparse(s)[:80]}")
@@ -352,6 +360,15 @@ class Tr:
     def try_stmt(self, s, rest, ret):
         h = s.handlers[0]
         names = self.handler_types(h)
+        if self.mut:
+            sub = Tr(dict(self.cfg, mutator=False))
+            sub.n = self.n + 1000
+            self.n += 50
+            inner = sub.try_stmt(s, [], None)
+            # inner has the shape "do x <- catch ... ; <rest>" — rebuild with the state-carrying bind
+            assert inner.startswith("do ") and inner.endswith("; None")
+            var, m = inner[3:-len("; None")].split(" <- ", 1)
+            return f"(match {m} with Ok {var} => {self.block(rest, ret)} | Err e__ => MErr self e__ end)"
         catch = f"catch{'2' if len(names) == 2 else ''}"
         body = s.body
         # try: return X  except E: raise E2
@@ -382,10 +399,13 @@ def ends(stmts):
     return bool(stmts) and isinstance(stmts[-1], (ast.Return, ast.Raise))
 
 
-def wrap_binds(binds, term):
+def wrap_binds(binds, term, do="do"):
     out = term
     for x, m in reversed(binds):
-        out = f"(do {x} <- {m}; {out})"
+        if do == "doS":
+            out = f"(match {m} with Ok {x} => {out} | Err e__ => MErr self e__ end)"
+        else:
+            out = f"(do {x} <- {m}; {out})"
     return out
 
 
@@ -404,6 +424,6 @@ def translate_method(tree, classname, name, cfg):
     tr = Tr(cfg)
     args = [a.arg for a in f.args.args if a.arg != "self"]
     sig = " ".join(f"({v(a)} : {cfg.get('arg_types', {}).get(a, '_')})" for a in args)
-    body = tr.block(f.body, cfg.get("fallthrough", "Ok self"))
-    rt = cfg["ret_type"]
-    return f"Definition {cfg['coq']} (self : wcs) {sig} : res ({rt}) :=\n  {body}.\n"
+    body = tr.block(f.body, cfg.get("fallthrough", "MOk self" if cfg.get("mutator") else "Ok self"))
+    rt = "mres" if cfg.get("mutator") else f"res ({cfg['ret_type']})"
+    return f"Definition {cfg['coq']} (self : wcs) {sig} : {rt} :=\n  {body}.\n"
